@@ -86,7 +86,11 @@ def run_text(arg):
             L = nlines[fi]
             if e["k"] == "mark":
                 var = MARKER_VARIANTS[fam][(e["style"] - 1 + 3 * L) % len(MARKER_VARIANTS[fam])]  # the line rotates the variants
-                concrete.append(("mark", L, "  " + var))
+                # where on the name's line: behind the code, or (block comments) in front of it - left of the name
+                if fam == "//" and (e["style"] + L) % 3 == 0:
+                    concrete.append(("lead", L, ("/* nocl */", "/*NOCL*/", "/* NoCl generated */")[L % 3]))
+                else:
+                    concrete.append(("mark", L, "  " + var))
                 tl.append({"k": "mark", "at": L, "style": e["style"]})
                 marked.append(base[fi][0])
             else:  # decoy, three flavours by style
